@@ -981,6 +981,8 @@ func runC03(r *Run) {
 	ruleFlushPathPanics(r, "R03.10")
 	r.floor("R03.11", 9)
 	ruleMemoryImageBounds(r, "R03.11")
+	r.floor("R03.12", 9)
+	ruleNeverMissesFlush(r, "R03.12")
 }
 
 // ruleMemoryImageBounds: a line fetch may be issued for any address (a
@@ -1057,4 +1059,96 @@ func (w *World) reachedFromRun(v *variant, fd *ast.FuncDecl) bool {
 		}
 	}
 	return false
+}
+
+// ruleBranchUnit: the prediction check of the branch unit equals its reference
+// model (flush exactly when a checked branch resolves to an unexpected target).
+func ruleBranchUnit(r *Run, rule string) {
+	setup := func(in *Interp) {
+		in.opaqueMethods = map[string]bool{"(*branchTargetBuffer).get": true, "(*fetchUnit).reset": true}
+	}
+	for _, v := range variants(r.W) {
+		if v.pkg == nil || !v.pipelined() {
+			continue
+		}
+		for _, tn := range []string{"btbBranchUnit", "simpleBranchUnit"} {
+			if v.pkg.Types.Scope().Lookup(tn) == nil {
+				continue
+			}
+			for _, m := range []string{"assert", "shouldFlushPipeline"} {
+				conform(r, rule, v.rel, tn, m, "bu", setup)
+			}
+		}
+	}
+}
+
+// ruleNeverMissesFlush: the flush decision may only answer "no flush" when the
+// check is disarmed or the resolved target equals the expectation (flushing
+// more often than needed costs cycles — C12 — but leaves no wrong-path trace).
+func ruleNeverMissesFlush(r *Run, rule string) {
+	w := r.W
+	for _, v := range variants(w) {
+		if v.pkg == nil || !v.pipelined() {
+			continue
+		}
+		for _, tn := range []string{"btbBranchUnit", "simpleBranchUnit"} {
+			if v.pkg.Types.Scope().Lookup(tn) == nil {
+				continue
+			}
+			fd, pkg := w.Method(v.rel, tn, "shouldFlushPipeline")
+			key := fmt.Sprintf("%s.(%s).shouldFlushPipeline:never-misses", v.rel, tn)
+			if fd == nil {
+				r.undecided(rule, key, token.NoPos, "the flush decision function was not found")
+				continue
+			}
+			t, err := newInterp(w).FuncTerm(fd, pkg)
+			if err != nil {
+				r.undecided(rule, key, fd.Pos(), "%v", err)
+				continue
+			}
+			t = hoistAll(t)
+			good := true
+			why := ""
+			var walk func(t *Term, conds []condLit)
+			walk = func(t *Term, conds []condLit) {
+				if t.Op == "ite" {
+					walk(t.Args[1], append(append([]condLit{}, conds...), condLit{t.Args[0], true}))
+					walk(t.Args[2], append(append([]condLit{}, conds...), condLit{t.Args[0], false}))
+					return
+				}
+				if t.Op != "out" || len(t.Args[0].Args) != 1 {
+					return
+				}
+				res := t.Args[0].Args[0]
+				b, isConst := res.constBool()
+				if isConst && b {
+					return // flush
+				}
+				// "no flush" (or a non-constant answer): needs a justifying condition on the path
+				justified := false
+				for _, c := range conds {
+					// disarmed: the bool field read is false
+					if c.c.Op == "fld" && strings.HasPrefix(c.c.S, "bool#") && !c.pos {
+						justified = true
+					}
+					// resolved target equals the expectation
+					if (c.c.Op == "ne" && !c.pos) || (c.c.Op == "eq" && c.pos) {
+						if c.c.contains(func(x *Term) bool { return x.Op == "param" }) && c.c.contains(func(x *Term) bool { return x.Op == "fld" && strings.HasPrefix(x.S, "int32#") }) {
+							justified = true
+						}
+					}
+				}
+				// the answer itself may be the comparison
+				if !isConst && (res.Op == "ne") && res.contains(func(x *Term) bool { return x.Op == "param" }) {
+					justified = true
+				}
+				if !justified {
+					good = false
+					why = "a path answers no-flush although the check is armed and the target was not compared with the expectation"
+				}
+			}
+			walk(t, nil)
+			r.check(good, rule, key, fd.Pos(), "the flush decision answers no-flush only when the check is disarmed or the resolved target equals the expectation %s", why)
+		}
+	}
 }
